@@ -193,7 +193,7 @@ def _rerun(run, path, quiet=False):
         jobs = [(0, "iv", [(x, x)], 8)]
     hits = []
     tag = "rp_" + os.path.basename(path).replace(".json", "")
-    for cfg, san, opt in ((core.GXX14, False, "-O1"), (core.CLANG14, True, "-O0")):
+    for cfg, san, opt in ((core.GXX14, False, "-O0"), (core.CLANG14, True, "-O0")):
         st, vs = sw.build_and_run(run, cfg, "%s_%s" % (tag, cfg.name), insts, jobs, san, 1, opt=opt)
         hits += [dict(z, build=str(cfg)) for z in vs if z["kind"] == r["violation_kind"]]
     if not quiet:
@@ -205,13 +205,16 @@ def _rerun(run, path, quiet=False):
 def check(run):
     tier = run.tier
     gcfg, ccfg = core.GXX14, core.CLANG14
-    gopt, copt = ("-O1", "-O0") if tier == "quick" else ("-O2", "-O2")
+    # quick: compile time dominates (0.1 s of template instantiation per instance and build) -> -O0
+    gopt, copt = ("-O0", "-O0") if tier == "quick" else ("-O2", "-O2")
     # warm every PCH we will need while the domain probes run
     pch = [(gcfg, cflags(gcfg)), (gcfg, sw.flags_for(gcfg, False, gopt)), (ccfg, sw.flags_for(ccfg, True, copt))]
     core.pmap(lambda a: core.pch_dir(a[0], a[1]), pch)
 
+    phases = {"pch": round(run.elapsed(), 1)}
     cands = m.instances()
     dom, mism = _domain(run, gcfg, cands)
+    phases["domain_probes"] = round(run.elapsed(), 1)
     if len(dom) < 0.8 * len(cands):
         raise core.InfraError("vacuity guard: only %d of %d (source,target,factor) instances compile"
                               % (len(dom), len(cands)))
@@ -225,6 +228,7 @@ def check(run):
         s, v = sw.build_and_run(run, cfg, "main_" + cfg.name, insts, jobs, san, ntu=4 * core.NCPU, opt=opt)
         stats += [dict(x, build=name) for x in s]
         viols += [dict(x, build=name) for x in v]
+        phases["sweep " + name] = round(run.elapsed(), 1)
 
     full_done, full_skipped = [], []
     if tier == "thorough":
@@ -301,7 +305,7 @@ def check(run):
         "window_radius_32_64bit": radius,
         "violation_events_by_kind": kinds, "distinct_violation_keys": nkeys,
         "full_2pow32_batches": full_done, "full_2pow32_batches_skipped": full_skipped,
-        "builds": sorted({s["build"] for s in stats}),
+        "builds": sorted({s["build"] for s in stats}), "phase_end_wall_s": phases,
         "samples": [{"S": s["S"], "T": s["T"], "C": s["C"], "factor": "%s/%s" % (s["N"], s["D"]),
                      "values": s["evals"], "lossy": s["lossy"], "cleared_and_executed": s["exec"],
                      "first_cleared_value": s["first_cleared"], "first_lossy_value": s["first_lossy"]}
